@@ -174,7 +174,7 @@ def _fake_get_hed_versions(local_hed_directory=None, library_name=None, check_pr
 
 
 def _is_ver(t):
-    """t = major digit + minor digits (1..VP_M, no leading zero) + patch digit"""
+    """t = major digit (1-9; 0-9 if VP_MAJOR0) + minor digits (1..VP_M, no leading zero) + patch digit"""
     n = len(t)
     if not (3 <= n <= 2 + R.M(1)):
         return False
@@ -182,6 +182,8 @@ def _is_ver(t):
         if not (48 <= ord(ch) <= 57):
             return False
     if n > 3 and ord(t[1]) == 48:
+        return False
+    if ord(t[0]) == 48 and not R.env_int("VP_MAJOR0", 0):
         return False
     return True
 
@@ -205,12 +207,22 @@ def _dep_cell(d, r1, r2):
     return d != _ver(r1) and d != _ver(r2)
 
 
-def deprecated_from_rule(d: str, r1: str, r2: str, hv: str, ov: str, in_lib: bool, kids: int, kids_dep: int) -> bool:
+def _with_released(released, fn):
+    saved = V.get_hed_versions
+    _RELEASED.clear()
+    _RELEASED.update(released)
+    V.get_hed_versions = _fake_get_hed_versions
+    try:
+        return fn()
+    finally:
+        V.get_hed_versions = saved
+
+
+def deprecated_from_rule(d: str, r1: str, r2: str, hv: str, ov: str, in_lib: bool) -> bool:
     """
     pre: 1 <= len(d) <= R.N(5)
     pre: _is_ver(r1) and _is_ver(r2) and _is_ver(hv) and _is_ver(ov)
     pre: _dep_cell(d, r1, r2)
-    pre: 0 <= kids_dep <= kids <= 2
     pre: in_lib or R.env_int("VP_CFG", 0) != 1
     pre: not in_lib or R.env_int("VP_CFG", 0) != 0
     post: _
@@ -231,27 +243,42 @@ def deprecated_from_rule(d: str, r1: str, r2: str, hv: str, ov: str, in_lib: boo
         else:
             schema = NS(library="lib", version_number=_ver(ov), with_standard=_ver(hv))
     other = "" if home == "lib" else "lib"
-    _RELEASED.clear()
-    _RELEASED[home] = [_ver(r1), _ver(r2)]
-    _RELEASED[other] = [_ver(ov), _ver(hv)]
     e = HedTagEntry("x", _TAGS)
     e.attributes[HedKey.DeprecatedFrom] = d
     if in_lib:
         e.attributes[HedKey.InLibrary] = "lib"
-    for i in (0, 1):
-        if i < kids:
-            c = HedTagEntry("x/" + _KID_KEYS[i], _TAGS)
-            if i < kids_dep:
-                c.attributes[HedKey.DeprecatedFrom] = d
-            e.children[_KID_KEYS[i]] = c
-    saved = V.get_hed_versions
-    V.get_hed_versions = _fake_get_hed_versions
-    try:
-        issues = V.tag_is_deprecated_check(schema, e, HedKey.DeprecatedFrom)
-    finally:
-        V.get_hed_versions = saved
-    expected = ref.deprecated_from_expect(d, [(_ver(r1), _key(r1)), (_ver(r2), _key(r2))], _key(hv), kids - kids_dep)
+    # the other library's list holds the versions the home library does NOT offer: reading it changes the verdict
+    issues = _with_released({home: [_ver(r1), _ver(r2)], other: [_ver(ov), _ver(hv)]},
+                            lambda: V.tag_is_deprecated_check(schema, e, HedKey.DeprecatedFrom))
+    expected = ref.deprecated_from_expect(d, [(_ver(r1), _key(r1)), (_ver(r2), _key(r2))], _key(hv), 0)
     return _agree(issues, expected)
+
+
+def deprecated_children_rule(major: str, is_tag: bool, kids: int, kids_dep: int, released: bool) -> bool:
+    """
+    pre: len(major) == 1 and 48 <= ord(major[0]) <= 57
+    pre: 0 <= kids_dep <= kids <= 2
+    pre: is_tag or kids == 0
+    post: _
+    """
+    major = _solid(major)
+    d = major + ".0.0"
+    schema = NS(library="", version_number="5.0.0", with_standard="")
+    if is_tag:
+        e = HedTagEntry("x", _TAGS)
+        for i in (0, 1):
+            if i < kids:
+                c = HedTagEntry("x/" + _KID_KEYS[i], _TAGS)
+                if i < kids_dep:
+                    c.attributes[HedKey.DeprecatedFrom] = d
+                e.children[_KID_KEYS[i]] = c
+    else:
+        e = HedSchemaEntry("x", _PLAIN)          # units, classes, attributes have no `children`
+    e.attributes[HedKey.DeprecatedFrom] = d
+    issues = _with_released({"": [d] if released else []},
+                            lambda: V.tag_is_deprecated_check(schema, e, HedKey.DeprecatedFrom))
+    known = [(d, ref.version_key(major, "0", "0"))] if released else []
+    return _agree(issues, ref.deprecated_from_expect(d, known, [5, 0, 0], kids - kids_dep))
 
 
 # ------------------------------------------------------------------------------------------ item lists
@@ -322,7 +349,7 @@ def hed_id_rule(body: str, lib: bool, prev: int, old: str, has_range: bool, lo: 
     pre: len(body) <= R.N(2)
     pre: R.scell(body, ["0", "1", "-", " "])
     pre: R.ascii_printable(body)
-    pre: prev == R.env_int("VP_PREV", prev) and 0 <= prev <= 3
+    pre: 0 <= prev <= 3 and (prev == 3) == (R.env_int("VP_PREV", 0) == 1)
     pre: 1 <= len(old) <= R.M(1)
     pre: R.over(old, "0123456789")
     pre: 0 <= lo <= hi <= 10 ** (R.N(2) + 1)
@@ -433,6 +460,9 @@ _CHNUM_F = ("vp/chnum.py float model: acceptance of ASCII text by float() is dec
             "documented grammar (validated against CPython on 5.4M strings), the value is CPython's own float of the "
             "realised text; digits restricted to 0,1,9 so the solver's enumeration of accepted numerals stays small")
 _CHNUM_I = "vp/chnum.py int model (ASCII grammar, symbolic value) and symbolic f-string formatting of symbolic ints"
+_STUB_VERSIONS = ("hed_cache.get_hed_versions is replaced, inside schema_attribute_validators only and for the duration "
+                  "of the call, by a function returning the harness's released-version lists per library (the "
+                  "cache directory is environment)")
 _CHSET = "vp/chset.py: one-character membership in a concrete set asked as one disjunction (exact)"
 
 
@@ -493,21 +523,27 @@ HARNESSES = [
         quick=R.tier(cells=R.product_cells(R.int_cells("VP_CFG", 0, 2), R.int_cells("VP_WHICH", 0, 2)),
                      env={"VP_N": 5, "VP_M": 1}, timeout=170,
                      bound="deprecatedFrom = every Unicode text of 1..5 characters; two released versions, the "
-                           "schema version and the partner version each d.d.d with arbitrary digits; standard / "
-                           "stand-alone library / partnered schema; element with or without inLibrary; 0..2 "
-                           "children each deprecated or not"),
+                           "schema version and the partner version each d.d.d (major 1-9, minor and patch 0-9); standard / "
+                           "stand-alone library / partnered schema; element with or without inLibrary"),
         thorough=R.tier(cells=R.product_cells(R.int_cells("VP_CFG", 0, 2), R.int_cells("VP_WHICH", 0, 2)),
-                        env={"VP_N": 6, "VP_M": 2}, timeout=1100, path_timeout=60,
-                        bound="as quick, minor version numbers of 1..2 digits (d.dd.d), deprecatedFrom <= 6 characters"),
+                        env={"VP_N": 6, "VP_M": 2, "VP_MAJOR0": 1}, timeout=1100, path_timeout=60,
+                        bound="as quick with major 0-9 and minor version numbers of 1..2 digits (d.dd.d), "
+                              "deprecatedFrom <= 6 characters"),
         what="SCHEMA_DEPRECATION_ERROR iff the value is not a released version of the element's own library or is "
              "not older than that library's version in the schema (partner version for standard elements of a "
-             "partnered schema); plus one SCHEMA_DEPRECATION_ERROR per child that is not deprecated",
+             "partnered schema); nothing else",
         oracle="models/compliance_ref.py deprecated_from_expect (own numeric version comparison)",
-        stubs=[_STUB_ENTRY, "hed_cache.get_hed_versions is replaced, inside schema_attribute_validators only, by a "
-                            "function returning the harness's released-version lists per library (the cache "
-                            "directory is environment)"],
+        stubs=[_STUB_ENTRY, _STUB_VERSIONS],
         outside="pre-release / build suffixes in versions; more than two released versions; merged multi-library "
                 "headers"),
+    R.H("deprecated_children_rule", [_AV + "tag_is_deprecated_check"],
+        quick=R.tier(env={}, timeout=170,
+                     bound="deprecatedFrom d.0.0 (any digit d) released or not, schema 5.0.0; tag entry with 0..2 "
+                           "children of which 0..all are deprecated, or an entry kind without children"),
+        what="one SCHEMA_DEPRECATION_ERROR per child of a deprecated tag that is not itself deprecated, in addition "
+             "to the verdict on the value; entries without a `children` member are handled",
+        oracle="models/compliance_ref.py deprecated_from_expect", stubs=[_STUB_ENTRY, _STUB_VERSIONS],
+        outside="more than two children"),
     R.H("item_exists_rule", [_AV + "item_exists_check", "hed.schema.hed_schema_section.HedSchemaTagSection.get",
                              "hed.schema.hed_schema_section.HedSchemaSection.get"],
         quick=R.tier(cells=_cells(4, [",", "/", "A", "a"], split1_from=3, extra=R.int_cells("VP_KIND", 0, 2)),
@@ -528,13 +564,13 @@ HARNESSES = [
         outside="the 1200-tag tables of the bundled schemas; non-ASCII item names"),
     R.H("hed_id_rule", ["hed.schema.schema_attribute_validator_hed_id.HedIDValidator.verify_tag_id",
                         "hed.schema.schema_io.df_util.remove_prefix"],
-        quick=R.tier(cells=_cells(2, ["0", "1", "-", " "], split1_from=2, extra=R.int_cells("VP_PREV", 0, 3)),
+        quick=R.tier(cells=_cells(2, ["0", "1", "-", " "], split1_from=2, extra=R.int_cells("VP_PREV", 0, 1)),
                      env={"VP_N": 2, "VP_M": 1}, timeout=170,
                      bound="hedId = 'HED_' + every printable-ASCII text of <= 2 characters; previous version absent / "
                            "element new / element without id / element with id HED_d (any digit); id range absent or "
                            "any 0 <= lo <= hi <= 1000; element of the standard schema or of library 'lib'"),
         thorough=R.tier(cells=_cells(3, ["0", "1", "-", " "], split1_from=2, split2_from=3,
-                                     extra=R.int_cells("VP_PREV", 0, 3)),
+                                     extra=R.int_cells("VP_PREV", 0, 1)),
                         env={"VP_N": 3, "VP_M": 2}, timeout=1100, path_timeout=60,
                         bound="as quick with <= 3 characters after 'HED_', previous ids of 1..2 digits, ranges up to 10000"),
         what="'HED_'+digits: SCHEMA_ATTRIBUTE_VALUE_INVALID once if the id differs from the id the element had in the "
